@@ -17,6 +17,10 @@ pub fn name_for(seed: u64, ods: bool) -> String {
     format!("synth-{:016x}.{}", seed, if ods { "ods" } else { "xlsx" })
 }
 
+pub fn name_with_ext(seed: u64, ext: &str) -> String {
+    format!("synth-{:016x}.{}", seed, ext)
+}
+
 pub fn make(name: &str) -> Option<Fixture> {
     let rest = name.strip_prefix("synth-")?;
     let (hex, ext) = rest.split_once('.')?;
@@ -24,6 +28,8 @@ pub fn make(name: &str) -> Option<Fixture> {
     let (format, bytes) = match ext {
         "xlsx" => (Format::Xlsx, xlsx(seed)),
         "ods" => (Format::Ods, ods(seed)),
+        "xls" => (Format::Xls, xls(seed)),
+        "xlsb" => (Format::Xlsb, xlsb(seed)),
         _ => return None,
     };
     Some(Fixture { name: name.to_string(), format, bytes: Arc::new(bytes) })
@@ -344,5 +350,294 @@ pub fn ods(seed: u64) -> Vec<u8> {
         ),
         make_entry("content.xml", c.as_bytes(), Pack::Deflated),
     ];
+    write(&entries).0
+}
+
+
+// ------------------------------------------------------------------------------------------
+// binary formats: the same sparse grids written as BIFF8 (in a compound file) and as xlsb
+// ------------------------------------------------------------------------------------------
+
+/// A simple value for the binary writers.
+enum B {
+    Num(f64),
+    Str(String),
+    Bool(bool),
+    Err(u8),
+    Blank,
+}
+
+fn simple(v: &V, strings: &[String]) -> B {
+    match v {
+        V::Num(n) | V::Date(n) | V::FormulaNum(_, n) => B::Num(*n),
+        V::Shared(i) => B::Str(strings[*i].clone()),
+        V::Inline(t) => B::Str(t.clone()),
+        V::FormulaStr(_, t) => B::Str(t.clone()),
+        V::Bool(b) => B::Bool(*b),
+        V::Err(e) => B::Err(match *e {
+            "#NULL!" => 0x00,
+            "#DIV/0!" => 0x07,
+            "#VALUE!" => 0x0F,
+            "#REF!" => 0x17,
+            "#NAME?" => 0x1D,
+            "#NUM!" => 0x24,
+            _ => 0x2A,
+        }),
+        V::Blank | V::EmptyInline => B::Blank,
+    }
+}
+
+fn grid_sheets(seed: u64, tag: &str) -> (Vec<Sheet>, Vec<String>) {
+    let mut ch = Chooser::new(seed, tag);
+    let n_sheets = ch.range(1, 4) as usize;
+    let strings: Vec<String> = (0..ch.range(3, 9)).map(|i| format!("{} {}", WORDS[ch.below(WORDS.len() as u64) as usize], i)).collect();
+    let sheets = (0..n_sheets)
+        .map(|i| {
+            let mut s = gen_sheet(&mut ch, i, strings.len());
+            s.name = format!("S{}", i + 1);
+            s.shared_formula = None;
+            s
+        })
+        .collect();
+    (sheets, strings)
+}
+
+fn biff_rec(out: &mut Vec<u8>, typ: u16, data: &[u8]) {
+    out.extend_from_slice(&typ.to_le_bytes());
+    out.extend_from_slice(&(data.len() as u16).to_le_bytes());
+    out.extend_from_slice(data);
+}
+
+pub fn xls(seed: u64) -> Vec<u8> {
+    let (sheets, strings) = grid_sheets(seed, "synth-xls");
+    // sheet substreams first, to know their offsets
+    let mut subs: Vec<Vec<u8>> = Vec::new();
+    for s in &sheets {
+        let mut o = Vec::new();
+        let mut bof = Vec::new();
+        bof.extend_from_slice(&0x0600u16.to_le_bytes());
+        bof.extend_from_slice(&0x0010u16.to_le_bytes());
+        bof.extend_from_slice(&[0xBB, 0x0D, 0xCC, 0x07, 0, 0, 0, 0, 6, 0, 0, 0]);
+        biff_rec(&mut o, 0x0809, &bof);
+        let (mut rmin, mut rmax, mut cmin, mut cmax) = (u32::MAX, 0, u32::MAX, 0);
+        for (r, cs) in &s.rows {
+            rmin = rmin.min(*r);
+            rmax = rmax.max(*r);
+            for (c, _) in cs {
+                cmin = cmin.min(*c);
+                cmax = cmax.max(*c);
+            }
+        }
+        let mut dim = Vec::new();
+        dim.extend_from_slice(&rmin.to_le_bytes());
+        dim.extend_from_slice(&(rmax + 1).to_le_bytes());
+        dim.extend_from_slice(&(cmin as u16).to_le_bytes());
+        dim.extend_from_slice(&(cmax as u16 + 1).to_le_bytes());
+        dim.extend_from_slice(&0u16.to_le_bytes());
+        biff_rec(&mut o, 0x0200, &dim);
+        for (r, cs) in &s.rows {
+            for (c, v) in cs {
+                let mut d = Vec::new();
+                d.extend_from_slice(&(*r as u16).to_le_bytes());
+                d.extend_from_slice(&(*c as u16).to_le_bytes());
+                d.extend_from_slice(&0u16.to_le_bytes());
+                match simple(v, &strings) {
+                    B::Num(n) => {
+                        d.extend_from_slice(&n.to_le_bytes());
+                        biff_rec(&mut o, 0x0203, &d);
+                    }
+                    B::Str(t) => {
+                        let units: Vec<u16> = t.encode_utf16().collect();
+                        d.extend_from_slice(&(units.len() as u16).to_le_bytes());
+                        d.push(1); // uncompressed UTF-16
+                        for u in units {
+                            d.extend_from_slice(&u.to_le_bytes());
+                        }
+                        biff_rec(&mut o, 0x0204, &d);
+                    }
+                    B::Bool(b) => {
+                        d.push(b as u8);
+                        d.push(0);
+                        biff_rec(&mut o, 0x0205, &d);
+                    }
+                    B::Err(e) => {
+                        d.push(e);
+                        d.push(1);
+                        biff_rec(&mut o, 0x0205, &d);
+                    }
+                    B::Blank => biff_rec(&mut o, 0x0201, &d),
+                }
+            }
+        }
+        biff_rec(&mut o, 0x000A, &[]);
+        subs.push(o);
+    }
+    // globals
+    let mut g = Vec::new();
+    let mut bof = Vec::new();
+    bof.extend_from_slice(&0x0600u16.to_le_bytes());
+    bof.extend_from_slice(&0x0005u16.to_le_bytes());
+    bof.extend_from_slice(&[0xBB, 0x0D, 0xCC, 0x07, 0, 0, 0, 0, 6, 0, 0, 0]);
+    biff_rec(&mut g, 0x0809, &bof);
+    biff_rec(&mut g, 0x0042, &1200u16.to_le_bytes());
+    let bs_len: usize = sheets.iter().map(|s| 4 + 6 + 2 + s.name.len()).sum();
+    let globals_len = g.len() + bs_len + 4;
+    let mut pos = globals_len;
+    for (s, sub) in sheets.iter().zip(&subs) {
+        let mut d = Vec::new();
+        d.extend_from_slice(&(pos as u32).to_le_bytes());
+        d.push(0);
+        d.push(0);
+        d.push(s.name.len() as u8);
+        d.push(0);
+        d.extend_from_slice(s.name.as_bytes());
+        biff_rec(&mut g, 0x0085, &d);
+        pos += sub.len();
+    }
+    biff_rec(&mut g, 0x000A, &[]);
+    debug_assert_eq!(g.len(), globals_len);
+    for sub in subs {
+        g.extend_from_slice(&sub);
+    }
+    let dir = vec![crate::cfbfmt::make_dir_entry(0, "Root Entry", 5, 1), crate::cfbfmt::make_dir_entry(1, "Workbook", 2, crate::cfbfmt::FREESECT)];
+    let streams = vec![Vec::new(), g];
+    crate::cfbfmt::write(&dir, &streams).0
+}
+
+fn brt(out: &mut Vec<u8>, typ: u16, data: &[u8]) {
+    if typ < 0x80 {
+        out.push(typ as u8);
+    } else {
+        out.push((typ & 0x7F) as u8 | 0x80);
+        out.push((typ >> 7) as u8);
+    }
+    let mut n = data.len();
+    loop {
+        let b = (n & 0x7F) as u8;
+        n >>= 7;
+        if n == 0 {
+            out.push(b);
+            break;
+        }
+        out.push(b | 0x80);
+    }
+    out.extend_from_slice(data);
+}
+
+fn wide(s: &str) -> Vec<u8> {
+    let units: Vec<u16> = s.encode_utf16().collect();
+    let mut v = (units.len() as u32).to_le_bytes().to_vec();
+    for u in units {
+        v.extend_from_slice(&u.to_le_bytes());
+    }
+    v
+}
+
+pub fn xlsb(seed: u64) -> Vec<u8> {
+    let (sheets, strings) = grid_sheets(seed, "synth-xlsb");
+    let mut ch = Chooser::new(seed, "synth-xlsb-pack");
+    let mut entries = Vec::new();
+    let pack = |ch: &mut Chooser| if ch.chance(1, 2) { Pack::Deflated } else { Pack::Stored };
+    // workbook.bin
+    let mut wb = Vec::new();
+    brt(&mut wb, 0x0083, &[]);
+    let mut prop = vec![0u8; 8];
+    prop.extend_from_slice(&wide(""));
+    brt(&mut wb, 0x0099, &prop);
+    brt(&mut wb, 0x008F, &[]);
+    let mut rels = String::from("<?xml version=\"1.0\" encoding=\"UTF-8\"?><Relationships xmlns=\"http://schemas.openxmlformats.org/package/2006/relationships\">");
+    for (i, s) in sheets.iter().enumerate() {
+        let mut d = Vec::new();
+        d.extend_from_slice(&0u32.to_le_bytes());
+        d.extend_from_slice(&(i as u32 + 1).to_le_bytes());
+        d.extend_from_slice(&wide(&format!("rId{}", i + 1)));
+        d.extend_from_slice(&wide(&s.name));
+        brt(&mut wb, 0x009C, &d);
+        rels.push_str(&format!("<Relationship Id=\"rId{}\" Type=\"http://schemas.openxmlformats.org/officeDocument/2006/relationships/worksheet\" Target=\"worksheets/sheet{}.bin\"/>", i + 1, i + 1));
+    }
+    rels.push_str("</Relationships>");
+    brt(&mut wb, 0x0090, &[]);
+    brt(&mut wb, 0x0084, &[]);
+    entries.push(make_entry("xl/workbook.bin", &wb, pack(&mut ch)));
+    entries.push(make_entry("xl/_rels/workbook.bin.rels", rels.as_bytes(), pack(&mut ch)));
+    // shared strings: every string cell of even column goes through the table
+    let mut sst_items: Vec<String> = Vec::new();
+    let mut sheet_parts: Vec<Vec<u8>> = Vec::new();
+    for s in &sheets {
+        let mut o = Vec::new();
+        brt(&mut o, 0x0081, &[]);
+        let (mut rmin, mut rmax, mut cmin, mut cmax) = (u32::MAX, 0, u32::MAX, 0);
+        for (r, cs) in &s.rows {
+            rmin = rmin.min(*r);
+            rmax = rmax.max(*r);
+            for (c, _) in cs {
+                cmin = cmin.min(*c);
+                cmax = cmax.max(*c);
+            }
+        }
+        let mut dim = Vec::new();
+        for v in [rmin, rmax, cmin, cmax] {
+            dim.extend_from_slice(&v.to_le_bytes());
+        }
+        brt(&mut o, 0x0094, &dim);
+        brt(&mut o, 0x0091, &[]);
+        for (r, cs) in &s.rows {
+            let mut rh = r.to_le_bytes().to_vec();
+            rh.extend_from_slice(&[0u8; 13]);
+            brt(&mut o, 0x0000, &rh);
+            for (c, v) in cs {
+                let mut d = c.to_le_bytes().to_vec();
+                d.extend_from_slice(&[0, 0, 0, 0]);
+                match simple(v, &strings) {
+                    B::Num(n) => {
+                        d.extend_from_slice(&n.to_le_bytes());
+                        brt(&mut o, 0x0005, &d);
+                    }
+                    B::Str(t) => {
+                        if c % 2 == 0 {
+                            let idx = match sst_items.iter().position(|x| *x == t) {
+                                Some(i) => i,
+                                None => {
+                                    sst_items.push(t.clone());
+                                    sst_items.len() - 1
+                                }
+                            };
+                            d.extend_from_slice(&(idx as u32).to_le_bytes());
+                            brt(&mut o, 0x0007, &d);
+                        } else {
+                            d.extend_from_slice(&wide(&t));
+                            brt(&mut o, 0x0006, &d);
+                        }
+                    }
+                    B::Bool(b) => {
+                        d.push(b as u8);
+                        brt(&mut o, 0x0004, &d);
+                    }
+                    B::Err(e) => {
+                        d.push(e);
+                        brt(&mut o, 0x0003, &d);
+                    }
+                    B::Blank => brt(&mut o, 0x0001, &d),
+                }
+            }
+        }
+        brt(&mut o, 0x0092, &[]);
+        brt(&mut o, 0x0082, &[]);
+        sheet_parts.push(o);
+    }
+    let mut sst = Vec::new();
+    let mut hdr = (sst_items.len() as u32).to_le_bytes().to_vec();
+    hdr.extend_from_slice(&(sst_items.len() as u32).to_le_bytes());
+    brt(&mut sst, 0x009F, &hdr);
+    for t in &sst_items {
+        let mut d = vec![0u8];
+        d.extend_from_slice(&wide(t));
+        brt(&mut sst, 0x0013, &d);
+    }
+    brt(&mut sst, 0x00A0, &[]);
+    entries.push(make_entry("xl/sharedStrings.bin", &sst, pack(&mut ch)));
+    for (i, p) in sheet_parts.iter().enumerate() {
+        entries.push(make_entry(&format!("xl/worksheets/sheet{}.bin", i + 1), p, pack(&mut ch)));
+    }
     write(&entries).0
 }
